@@ -516,6 +516,26 @@ def apply(ex, ctx, st, f, args, dest_ty, term):
             return mk('ref', (base[1][0], base[1][1], base[1][2] + (ix,)), None), st
         raise Uncertified("Index::index with %s" % (ix[0],))
 
+    if path in ('core::ops::Range::<Idx>::contains', 'core::ops::RangeInclusive::<Idx>::contains',
+                'core::ops::range::Range::<Idx>::contains', 'core::ops::range::RangeInclusive::<Idx>::contains') or \
+            (name == 'contains' and path.startswith('core::ops::') and 'Range' in path):
+        rg = ex.load(st, args[0]) if args[0][0] == 'ref' else args[0]
+        x = args[1]
+        while x[0] == 'ref':
+            x = ex.load(st, x)
+        if rg[0] != 'agg':
+            raise Uncertified("contains on %s" % rg[0])
+        ty = ty_of(x)
+        rk = rg[1][1]
+        lo, hi = rg[2][0], rg[2][1]
+        if rk.endswith('RangeInclusive'):
+            return mk_and(mk_bin('Le', lo, x, ty, 'bool'), mk_bin('Le', x, hi, ty, 'bool')), st
+        if rk.endswith('Range'):
+            return mk_and(mk_bin('Le', lo, x, ty, 'bool'), mk_bin('Lt', x, hi, ty, 'bool')), st
+        raise Uncertified("contains on %s" % rk)
+    if path.startswith('core::ops::RangeInclusive::<Idx>::new') or path.startswith('core::ops::range::RangeInclusive::<Idx>::new'):
+        return agg(('adt', 'core::ops::RangeInclusive', 0), (args[0], args[1], FALSE)), st
+
     # ---- iterators -------------------------------------------------------------------------
     if dpath == 'core::iter::Iterator::next':
         itref = args[0]
